@@ -555,4 +555,35 @@ def msgsDescOK : List Desc → List WMsg → Bool
     let descs' := noteDesc descs m.num (wireFields m)
     devsDescOK descs' m.devs && msgsDescOK descs' ms
 
+/-! ### what `Encode` stores back into the caller's `proto.FIT` (appended for C02's write-back clause)
+
+Closed form: the values `Encode` leaves in `fit.FileHeader` (Size, ProtocolVersion, ProfileVersion, DataSize, CRC) and in
+`fit.CRC` after a successful call on the (normalised) header `h`. The step-by-step account of how the code gets there —
+`encodeFileHeader` / `encodeCRC` / `updateFileHeader` / `calculateDataSize`, on either strategy, under any fault
+schedule — is `Writer.encodeWB` (FitModel/Writer.lean); `C02_writeback_steps` proves the two equal on every successful
+call and `C02_writeback` that these are the values on the wire. -/
+
+structure WriteBack where
+  size : Nat
+  protoVer : Nat
+  profileVer : Nat
+  /-- `fit.FileHeader.DataSize` -/
+  dataSize : Nat
+  /-- `fit.FileHeader.CRC` (0 for a 12-byte header) -/
+  hcrc : Nat
+  /-- `fit.CRC` -/
+  crc : Nat
+  deriving DecidableEq, Repr, Inhabited
+
+/-- `header.CRC` as `encodeFileHeader` / `updateFileHeader` compute it from the running hash `crc0` (reset whenever the
+code gets there): the CRC-16 of the twelve marshalled bytes for a 14-byte header; `header.CRC = 0 // recalculated` stays for a 12-byte one -/
+def hdrCrcBack (crc0 : Nat) (h : Hdr) (ds : Nat) : Nat :=
+  if h.size = 14 then write crc0 ([h.size, h.protoVer] ++ le16 h.profileVer ++ le32 ds ++ [0x2E, 0x46, 0x49, 0x54]) else 0
+
+def writeBack (o : Opts) (h : Hdr) (ms : List WMsg) : WriteBack :=
+  let recs := encodeMsgs o (freshEnc o) ms
+  let ds := recs.length % 4294967296
+  { size := h.size, protoVer := h.protoVer, profileVer := h.profileVer, dataSize := ds,
+    hcrc := hdrCrcBack 0 h ds, crc := write 0 recs }
+
 end Fit.Wire
